@@ -1,14 +1,192 @@
-//! Lending world (C13) operations. 
-use std::sync::Arc;
-use crate::ctx::*;
-use crate::spec::*;
+//! Lending world (C13): sessions in which a simulated thread borrows an instance, takes references
+//! from it (make_ref of two value types, lent `returns` values, through the delegation helper,
+//! clones of the mock itself) and re-reads *all* of them after every further step; exclusive
+//! sessions additionally use make_mut, which is the only thing allowed to release earlier values.
 
-pub fn exec_op(
-    _run: &Arc<RunCtx>,
-    _tid: u8,
-    _idx: u16,
-    _op: &Op,
-    _locals: &mut Vec<Arc<unimock::Unimock>>,
-) -> Result<(), Box<dyn std::any::Any + Send>> {
-    unimplemented!("lending world")
+use std::sync::Arc;
+
+use unimock::Unimock;
+
+use crate::corpus::*;
+use crate::ctx::*;
+use crate::sched::SITE_OP;
+use crate::spec::*;
+use crate::values::*;
+use crate::world::*;
+
+fn ev(run: &RunCtx, tid: u8, slot: u8, what: LendWhat) {
+    let step = run.tick();
+    run.log(|l| l.lend.push(LendEv { step, thread: tid, slot, what }));
+}
+
+#[derive(Default)]
+struct Held<'a> {
+    a: Vec<(u32, &'a ValA)>,
+    b: Vec<(u32, &'a ValB)>,
+    t: Vec<(u32, &'a Tracked)>,
+    u: Vec<&'a Unimock>,
+}
+
+impl Held<'_> {
+    fn len(&self) -> u32 {
+        (self.a.len() + self.b.len() + self.t.len() + self.u.len()) as u32
+    }
+
+    fn check(&self, run: &RunCtx, tid: u8, slot: u8) {
+        let mut addrs: std::collections::HashSet<usize> = Default::default();
+        let mut bad = |val: u32, what: String| ev(run, tid, slot, LendWhat::Bad { val, what });
+        for (id, r) in &self.a {
+            if r.id != *id || !r.intact() {
+                bad(*id, format!("ValA reference now shows id {} canary {:#x}", r.id, r.canary));
+            }
+            if !addrs.insert(*r as *const ValA as usize) {
+                bad(*id, "two held references share an address".into());
+            }
+        }
+        for (id, r) in &self.b {
+            if r.id != *id || !r.intact() || r.pad != [7; 3] {
+                bad(*id, format!("ValB reference now shows id {} canary {:#x} pad {:?}", r.id, r.canary, r.pad));
+            }
+            if !addrs.insert(*r as *const ValB as usize) {
+                bad(*id, "two held references share an address".into());
+            }
+        }
+        for (id, r) in &self.t {
+            if r.id != *id || !r.intact() {
+                bad(*id, format!("lent Tracked reference now shows id {}", r.id));
+            }
+        }
+        for r in &self.u {
+            // a lent clone of the mock must still be a usable clone
+            if unimock::verif::is_original(r) {
+                bad(0, "lent clone turned into the original".into());
+            }
+        }
+        ev(run, tid, slot, LendWhat::Checked { n: self.len() });
+    }
+}
+
+fn take<'a>(run: &RunCtx, tid: u8, slot: u8, u: &'a Unimock, held: &mut Held<'a>, kind: LendKind, val: u32, lent_id: u32) {
+    with_tl(|t| t.cur_val = val);
+    match kind {
+        LendKind::MakeRefA => {
+            let r = u.lend_a(0);
+            ev(run, tid, slot, LendWhat::Taken { val, kind, addr: r as *const ValA as u64 });
+            held.a.push((val, r));
+        }
+        LendKind::MakeRefB => {
+            let r = u.lend_b(0);
+            ev(run, tid, slot, LendWhat::Taken { val, kind, addr: r as *const ValB as u64 });
+            held.b.push((val, r));
+        }
+        LendKind::ViaHelper => {
+            let r = u.lend_via(0);
+            ev(run, tid, slot, LendWhat::Taken { val, kind, addr: r as *const ValA as u64 });
+            held.a.push((val, r));
+        }
+        LendKind::Lent => {
+            let r = u.lent(0);
+            ev(run, tid, slot, LendWhat::Taken { val: lent_id, kind, addr: r as *const Tracked as u64 });
+            held.t.push((lent_id, r));
+        }
+        LendKind::CloneOfSelf => {
+            let r = u.lend_clone(0);
+            ev(run, tid, slot, LendWhat::Taken { val, kind, addr: r as *const Unimock as u64 });
+            held.u.push(r);
+        }
+    }
+}
+
+fn shared_steps(run: &Arc<RunCtx>, tid: u8, slot: u8, u: &Unimock, steps: &[LendStep], lent_id: u32) {
+    let mut held = Held::default();
+    for step in steps {
+        match step {
+            LendStep::Take { kind, val, n } => {
+                for i in 0..*n {
+                    take(run, tid, slot, u, &mut held, *kind, val + i, lent_id);
+                }
+                held.check(run, tid, slot);
+            }
+            LendStep::Check => held.check(run, tid, slot),
+            LendStep::Yield => run.sched.yield_now(tid as usize, SITE_OP),
+            LendStep::MakeMut { .. } => unreachable!("make_mut needs an exclusive session"),
+        }
+    }
+    held.check(run, tid, slot);
+    ev(run, tid, slot, LendWhat::SessionEnd { held: held.len() });
+}
+
+fn lent_id_of(run: &RunCtx, mock: u8) -> u32 {
+    run.cfgs[mock as usize]
+        .specials
+        .iter()
+        .find_map(|s| if let Special::Lent { id } = s { Some(*id) } else { None })
+        .unwrap_or(0)
+}
+
+pub fn exec_op(run: &Arc<RunCtx>, tid: u8, idx: u16, op: &Op) -> Result<(), Box<dyn std::any::Any + Send>> {
+    let Op::LendSession { slot, exclusive, steps } = op else { unreachable!() };
+    let slot = *slot;
+    let mock = mock_of(run, slot);
+    let start = begin_op(run, tid, idx, None, mock);
+    let lent_id = lent_id_of(run, mock);
+    let result = if !*exclusive {
+        match get_slot(run, slot) {
+            None => OpResult::Skipped("slot empty".into()),
+            Some(h) => {
+                ev(run, tid, slot, LendWhat::SessionStart { exclusive: false });
+                let r = std::panic::catch_unwind(std::panic::AssertUnwindSafe(|| shared_steps(run, tid, slot, &h, steps, lent_id)));
+                release_handle(run, slot, h);
+                match r {
+                    Ok(()) => OpResult::Done,
+                    Err(p) => match classify_panic(p.as_ref()) {
+                        Outcome::MockPanic(s) => OpResult::Panicked(s),
+                        Outcome::UserPanic(f) => OpResult::UserPanicked(f),
+                        _ => OpResult::Done,
+                    },
+                }
+            }
+        }
+    } else {
+        match take_unique(run, slot) {
+            Err(e) => OpResult::Skipped(e),
+            Ok(mut u) => {
+                ev(run, tid, slot, LendWhat::SessionStart { exclusive: true });
+                let r = std::panic::catch_unwind(std::panic::AssertUnwindSafe(|| {
+                    // phases of shared borrows, separated by make_mut
+                    let mut i = 0;
+                    while i < steps.len() {
+                        let j = steps[i..].iter().position(|s| matches!(s, LendStep::MakeMut { .. })).map(|p| i + p).unwrap_or(steps.len());
+                        shared_steps(run, tid, slot, &u, &steps[i..j], lent_id);
+                        if j < steps.len() {
+                            if let LendStep::MakeMut { val } = steps[j] {
+                                with_tl(|t| t.cur_val = val);
+                                ev(run, tid, slot, LendWhat::MakeMutStart { val });
+                                let r = u.lend_mut(0);
+                                let ok = r.id == val && r.intact();
+                                let addr = r as *const ValA as u64;
+                                ev(run, tid, slot, LendWhat::MakeMutEnd { val });
+                                ev(run, tid, slot, LendWhat::Taken { val, kind: LendKind::MakeRefA, addr });
+                                if !ok {
+                                    ev(run, tid, slot, LendWhat::Bad { val, what: "make_mut returned a reference to another value".into() });
+                                }
+                            }
+                        }
+                        i = j + 1;
+                    }
+                }));
+                put_slot(run, slot, Arc::new(u));
+                match r {
+                    Ok(()) => OpResult::Done,
+                    Err(p) => match classify_panic(p.as_ref()) {
+                        Outcome::MockPanic(s) => OpResult::Panicked(s),
+                        Outcome::UserPanic(f) => OpResult::UserPanicked(f),
+                        _ => OpResult::Done,
+                    },
+                }
+            }
+        }
+    };
+    end_op(run, tid, idx, start, result, None, None);
+    Ok(())
 }
